@@ -19,67 +19,11 @@ API (namespace `Dos.Codec`)
   Montgomery level (what the limbs hold): `marshalG1M`, `unmarshalG1M`, … see the end of the file.
 -/
 import DosModel.Model.Bn256
+import DosModel.Model.CodecBase
+import DosModel.Model.CodecRep
 
 namespace Dos.Codec
 open Dos Dos.Bn256
-
-inductive DecErr where
-  | short      -- "not enough data"
-  | malformed  -- "malformed point": bad tag, curve equation, subgroup
-  | noncanon   -- "coordinate exceeds modulus"
-  | size       -- scalar: "wrong size buffer"
-  | range      -- scalar: "value out of range"
-  | eof        -- UnmarshalFrom: reader empty
-  | ueof       -- UnmarshalFrom: reader ended inside the element
-  deriving DecidableEq, Repr
-
-inductive Out (α : Type) where
-  | ok (v : α)
-  | err (e : DecErr)
-  | panic (site : String)
-  deriving Repr, DecidableEq
-
-def Out.bind : Out α → (α → Out β) → Out β
-  | .ok v, f => f v
-  | .err e, _ => .err e
-  | .panic s, _ => .panic s
-
-instance : Monad Out where
-  pure := .ok
-  bind := Out.bind
-
-def Out.isPanic : Out α → Bool
-  | .panic _ => true
-  | _ => false
-
-/-- Go `buf[off:]` -/
-def sliceFrom (buf : Bytes) (off : Nat) : Out Bytes :=
-  if off ≤ buf.length then .ok (buf.drop off) else .panic "slice bounds out of range"
-
-/-- `gfP.Unmarshal(in)` (repaired: overwrites): reads `in[0..31]` big-endian; indexes past a shorter slice panic -/
-def gfpUnmarshal (inp : Bytes) : Out Nat :=
-  if 32 ≤ inp.length then .ok (beNat (inp.take 32)) else .panic "index out of range"
-
-/-- `gfP.Marshal` of a decoded coordinate -/
-def be32 (n : Nat) : Bytes := natBE 32 n
-
-/-- `n` consecutive reads `c_i.Unmarshal(buf[i*32:])` (G1: two, G2: four after the tag byte, GT: twelve):
-read a coordinate, re-slice 32 bytes further (`buf[(i+1)*32:] = buf[i*32:][32:]`) -/
-def readCoords : Nat → Bytes → Out (List Nat)
-  | 0, _ => .ok []
-  | n + 1, buf =>
-    match gfpUnmarshal buf with
-    | .ok c =>
-      match sliceFrom buf 32 with
-      | .ok rest =>
-        match readCoords n rest with
-        | .ok cs => .ok (c :: cs)
-        | .err e => .err e
-        | .panic s => .panic s
-      | .err e => .err e
-      | .panic s => .panic s
-    | .err e => .err e
-    | .panic s => .panic s
 
 /-! ### G1 -/
 
@@ -222,11 +166,6 @@ def marshalG2M : Option (Nat × Nat × Nat × Nat) → Bytes
 /-- what `UnmarshalBinary` stores for a coordinate it read -/
 def storeCoord (x : Nat) : Nat := montEncode x
 
-/-- Go `b[lo:hi]` -/
-def sliceRange (b : Bytes) (lo hi : Nat) : Out Bytes :=
-  if lo ≤ hi ∧ hi ≤ b.length then .ok ((b.drop lo).take (hi - lo))
-  else .panic "slice bounds out of range"
-
 /-- `pdkg.go decodePubKey`: `MarshalBinary` then bytes `32i+1 .. 32i+33` (i = 0..3) as big-endian
 numbers; slicing a 1-byte identity encoding panics (F12) -/
 def decodePubKey (enc : Bytes) : Out (List Nat) :=
@@ -239,15 +178,80 @@ def sigToBigInt (sig : Bytes) : Out (Nat × Nat) :=
   if 32 ≤ sig.length then .ok (beNat (sig.take 32), beNat (sig.drop 32))
   else .panic "slice bounds out of range"
 
-/-! ### helpers for the drivers -/
 
-def errName : DecErr → String
-  | .short => "short" | .malformed => "malformed" | .noncanon => "noncanon"
-  | .size => "size" | .range => "range" | .eof => "eof" | .ueof => "ueof"
+/-! ### representation level (`Model/CodecRep.lean` at the number-level Montgomery functions of `Model/Bn256.lean`):
+the OBJECT a decoder leaves behind — `x, y, z, t` as limb values — and the object an encoder reads. -/
 
-def showOut (f : α → String) : Out α → String
-  | .ok v => "ok " ++ f v
-  | .err e => "err " ++ errName e
-  | .panic s => "panic " ++ s
+/-- `gfP` as the number its four limbs spell -/
+def natFld : CodecRep.Fld Nat where
+  p := p
+  raw := id
+  val := id
+  enc := montEncode
+  dec := montDecode
+  zero := 0
+  one := montEncode 1
+  eq := fun a b => a == b
+
+abbrev Rep1 := CodecRep.Pt Nat
+abbrev Rep2 := CodecRep.Pt (Nat × Nat)
+
+/-- the affine element a representation with `z ∈ {0, 1}` denotes (value level; general `z`: `x/z²`, `y/z³`) -/
+def Rep1.toG1 (g : Rep1) : G1 :=
+  if g.z == 0 then .inf
+  else
+    let zi := finv (montDecode g.z)
+    let zi2 := fmul zi zi
+    .aff (fmul (montDecode g.x) zi2) (fmul (montDecode g.y) (fmul zi zi2))
+
+def fp2OfRep (a : Nat × Nat) : Fp2 := ⟨montDecode a.1, montDecode a.2⟩
+
+def Rep2.toG2 (g : Rep2) : G2 :=
+  if g.z.1 == 0 && g.z.2 == 0 then .inf
+  else
+    let zi := Fp2.inv (fp2OfRep g.z)
+    let zi2 := Fp2.mul zi zi
+    .aff (Fp2.mul (fp2OfRep g.x) zi2) (Fp2.mul (fp2OfRep g.y) (Fp2.mul zi zi2))
+
+/-- the representation the decoders write for an element -/
+def repOfG1 : G1 → Rep1
+  | .inf => ⟨0, montEncode 1, 0, 0⟩
+  | .aff x y => ⟨montEncode x, montEncode y, montEncode 1, montEncode 1⟩
+
+def repOfG2 : G2 → Rep2
+  | .inf => ⟨(0, 0), (0, montEncode 1), (0, 0), (0, 0)⟩
+  | .aff x y => ⟨(montEncode x.im, montEncode x.re), (montEncode y.im, montEncode y.re),
+      (0, montEncode 1), (0, montEncode 1)⟩
+
+/-- `curvePoint.IsOnCurve`, value level: `MakeAffine` in place (`z = 1`: untouched; `z = 0`: (0, 1, 0, 0) with the
+old `z`; else the affine coordinates with `z = t = 1`), then the curve equation on the decoded coordinates -/
+def isOnCurve1 (g : Rep1) : Rep1 × Bool :=
+  if g.z == montEncode 1 then (g, G1.onCurve (.aff (montDecode g.x) (montDecode g.y)))
+  else if g.z == 0 then (⟨0, montEncode 1, g.z, 0⟩, true)
+  else
+    match g.toG1 with
+    | .inf => (g, false)   -- unreachable: z ≠ 0
+    | .aff x y => (⟨montEncode x, montEncode y, montEncode 1, montEncode 1⟩, G1.onCurve (.aff x y))
+
+/-- `twistPoint.IsOnCurve`, value level: curve equation, then `r•P = O` -/
+def isOnCurve2 (g : Rep2) : Rep2 × Bool :=
+  let ok (P : G2) : Bool := G2.onCurve P && G2.inSubgroup P
+  if g.z.1 == 0 && g.z.2 == montEncode 1 then (g, ok (.aff (fp2OfRep g.x) (fp2OfRep g.y)))
+  else if g.z.1 == 0 && g.z.2 == 0 then (⟨(0, 0), (0, montEncode 1), g.z, (0, 0)⟩, true)
+  else
+    match g.toG2 with
+    | .inf => (g, false)
+    | .aff x y => (repOfG2 (.aff x y), ok (.aff x y))
+
+/-- `pointG1.UnmarshalBinary` on a receiver in state `g`: (receiver afterwards, outcome) -/
+def unmarshalG1Rep (g : Rep1) (buf : Bytes) : Rep1 × Out Unit := CodecRep.unmarshalG1 natFld isOnCurve1 g buf
+def unmarshalG2Rep (g : Rep2) (buf : Bytes) : Rep2 × Out Unit := CodecRep.unmarshalG2 natFld isOnCurve2 g buf
+def unmarshalGTRep (g : List Nat) (buf : Bytes) : List Nat × Out Unit := CodecRep.unmarshalGT natFld g buf
+
+/-- the form of a representation as the harness reports it: `n` normalised affine, `i` identity form, `x` other -/
+def formOf1 (g : Rep1) : String :=
+  if CodecRep.Pt.normal1 natFld g then "n" else if CodecRep.Pt.ident1 natFld g then "i" else "x"
+def formOf2 (g : Rep2) : String :=
+  if CodecRep.Pt.normal2 natFld g then "n" else if CodecRep.Pt.ident2 natFld g then "i" else "x"
 
 end Dos.Codec
